@@ -7,9 +7,11 @@ package main
 import (
 	"bytes"
 	"crypto"
+	"crypto/ecdsa"
 	"crypto/x509"
 	"encoding/pem"
 	"fmt"
+	"math/big"
 	"os"
 	"os/exec"
 	"path/filepath"
@@ -26,13 +28,13 @@ const p12Password = "verif"
 var privNames = []string{"rsaA", "rsaB", "p256A", "p256B", "p384"}
 
 type material struct {
-	Dir    string
-	Leaf   map[string]*x509.Certificate // by fixture key name
-	Inter  *x509.Certificate
-	Root   *x509.Certificate
-	Other  *x509.Certificate // unrelated root
-	Signer map[string]crypto.Signer
-	PGP    map[string]*openpgp.Entity // public entities rsaA, rsaB
+	Dir     string
+	Leaf    map[string]*x509.Certificate // by fixture key name
+	Inter   *x509.Certificate
+	Root    *x509.Certificate
+	Other   *x509.Certificate // unrelated root
+	Signer  map[string]crypto.Signer
+	PGP     map[string]*openpgp.Entity // public entities rsaA, rsaB
 	PGPByID map[uint64]string
 }
 
@@ -180,6 +182,18 @@ func (m *material) generate() {
 	must(os.WriteFile(m.path("ring-arm1-AB.pgp"), armored(cat(rawA, rawB)), 0o644))
 	must(os.WriteFile(m.path("ring-arm2-BA.pgp"), cat(armored(rawB), armored(rawA)), 0o644))
 	must(os.WriteFile(m.path("ring-arm2-AB.pgp"), cat(armored(rawA), armored(rawB)), 0o644))
+	// the negated point of p256A: same X, other Y (private scalar n-d)
+	{
+		k := m.Signer["p256A"].(*ecdsa.PrivateKey)
+		params := k.Curve.Params()
+		neg := &ecdsa.PrivateKey{D: new(big.Int).Sub(params.N, k.D)}
+		neg.Curve = k.Curve
+		neg.X = new(big.Int).Set(k.X)
+		neg.Y = new(big.Int).Sub(params.P, k.Y)
+		der, err := x509.MarshalPKCS8PrivateKey(neg)
+		must(err)
+		must(os.WriteFile(m.path("p256A-negated.key"), pem.EncodeToMemory(&pem.Block{Type: "PRIVATE KEY", Bytes: der}), 0o600))
+	}
 	// minimal OCI image manifest for the cosign signer
 	must(os.WriteFile(m.path("image-manifest.json"), []byte(`{"schemaVersion":2,"mediaType":"application/vnd.oci.image.manifest.v1+json","config":{"mediaType":"application/vnd.oci.image.config.v1+json","digest":"sha256:44136fa355b3678a1146ad16f7e8649e94fb4fc21fe77e8310c060f61caaff8a","size":2},"layers":[]}`), 0o644))
 }
